@@ -55,6 +55,7 @@ BUDGET = {"quick": 50.0, "thorough": 480.0}
 
 ATOMS = ["\\300", "\\256", "\\999", "\\00", "\\0", "\\", "\\1a2", '""', '"', "(", ")", "((", "))", ";", "$TTL", "$ORIGIN", "$GENERATE", "$INCLUDE", "$UNICODE", "$",
          "9" * 5000, "99999999999999999999", "-1", "٣", "²", "1e9", "0x10", "\x00", "​", "é", "\\# 0", "\\# 1", "\\# 2 00", "\\#", "@", ".", "..", "a..b",
+         "7102w", "49711d", "4294967296s", "1w4294967295s", "71582788m1s", "7101w", "4294967295s",
          "x" * 64, "y" * 300, "TYPE0", "TYPE65536", "CLASS70000", "TYPE", "1w2d3h4m5s", "1z", "4294967296", "2147483648", "IN", "CH", "ANY", "NONE", "\t", "\r", "\\.", "*",
          "1-2", "1-3/0", "${0,0,z}", "${-1}", "$" + "{" * 50, "''", "`", "\\032", "\n", " \n ", "\n\n(",
          # characters that are "digits" to str.isdigit() but not decimal (superscripts, circled, Ethiopic), alone and inside \\DDD escapes
@@ -389,7 +390,12 @@ def fuzz_rdata_text(mon, rng, rdclass, rdtype, tname, t):
 
 def fuzz_ttl_text(mon, rng, t):
     case = {"kind": "ttltext", "text": t}
-    mon.run("ttl.from_text", lambda: dns.ttl.from_text(t), len(t), case, wire=False)
+    v = mon.run("ttl.from_text", lambda: dns.ttl.from_text(t), len(t), case, wire=False)
+    if v is not None:
+        # what was accepted is a TTL: it fits the 32-bit field it is rendered into
+        mon.ctx.count("mon.accepted_ttl_in_range")
+        if not isinstance(v, int) or not (0 <= v <= 0xFFFFFFFF):
+            mon.ctx.violation("returned-value-cannot-be-rendered:ttl.from_text:out-of-range", f"{t!r} -> {v!r}", case)
 
 
 def fuzz_rrset_text(mon, rng, t, rdtype_text):
@@ -593,7 +599,7 @@ def run(spec, ctx):
             nt = RN.to_text(GN.name(rng), rng.choice(("minimal", "ddd", "bschar")))
             nt, _ = mutate_text(rng, nt) if rng.random() < 0.8 else (nt, "")
             fuzz_name_text(mon, rng, nt)
-            fuzz_ttl_text(mon, rng, rng.choice(("300", "1w2d", "1W", "", "w", "1w1", "9" * rng.choice((3, 11, 5000)), "-1", "1.5", "٣", "0", "4294967295", "4294967296", "1h1h", rng.choice(ATOMS))))
+            fuzz_ttl_text(mon, rng, rng.choice(("300", "1w2d", "1W", "", "w", "1w1", "9" * rng.choice((3, 11, 5000)), "-1", "1.5", "٣", "0", "4294967295", "4294967296", "1h1h", "7102w", "49711d", "1w4294967295s", "4294967296s", rng.choice(ATOMS))))
             # --- zones / rrsets / message text / tokenizer
             if i % 3 == 0:
                 zt, zo = rng.choice(zones)
